@@ -327,9 +327,46 @@ def boundary(rng):
     return out
 
 
+def gen_xy_transposed(rng, kind):
+    """two variables of one call over the SAME dimensions of EQUAL sizes but stored in different dimension order
+    (alignment must go by dimension name, never by position)"""
+    for _ in range(400):
+        c = gen_xy(rng, kind, grid='none', variant='z' if kind == 'scatter' else rng.choice(['z', 'x2d']))
+        sizes = {d['name']: len(d['coords']) for d in c['ds']['dims']}
+        used = [v for v in c['ds']['vars'] if v['name'] in (c['call']['x'], c['call']['y'], c['call']['c'], c['call']['y_err'], c['call']['x_err'])]
+        multi = [v for v in used if len(v['dims']) >= 2 and len({sizes[d] for d in v['dims']}) == 1 and sizes[v['dims'][0]] >= 2]
+        if any(a['dims'] != b['dims'] and sorted(a['dims']) == sorted(b['dims']) for a in multi for b in multi):
+            return c
+    return c
+
+
+def gen_scatter_free2d(rng):
+    """scatter without z: x, y (and c) are data variables over two free dimensions of equal size, stored in different
+    dimension orders — all points of the 2-d cloud are drawn, paired by coordinate, not by storage position"""
+    ids = Ids()
+    n = rng.choice([2, 3, 3, 4])
+    dd = [{'name': 'x', 'coords': plotds.gen_coords(rng, n, rng.choice(['int', 'float']), 0)},
+          {'name': 'u', 'coords': plotds.gen_coords(rng, n, rng.choice(['int', 'float']), 1)}]
+    sizes = {'x': n, 'u': n}
+    orders = [['x', 'u'], ['u', 'x']]
+    pat = rng.choice(['full', 'nan'])
+    vs = [_var(rng, 'y', rng.choice(orders), sizes, ids, pat), _var(rng, 'xv', rng.choice(orders), sizes, ids, rng.choice(['full', 'nan']))]
+    call = {'x': 'xv', 'y': 'y', 'z': None, 'c': None, 'y_err': None, 'x_err': None, 'row': None, 'col': None}
+    if rng.random() < 0.7:
+        vs.append(_var(rng, 'cv', rng.choice(orders), sizes, ids, 'full')); call['c'] = 'cv'
+    if len({tuple(v['dims']) for v in vs}) == 1: vs[1]['dims'] = list(reversed(vs[0]['dims']))
+    desc = {'dims': dd, 'vars': vs, 'off': rng.randrange(509)}
+    opts = gen_opts(rng, 'scatter', False, True, call['c'] is not None, 1, False)
+    return {'kind': 'scatter', 'auto': False, 'ds': desc, 'call': call, 'opts': opts}
+
+
 def cases(ctx):
     rng = ctx.rng
     out = boundary(rng)
+    for _ in range(12 if ctx.tier == 'quick' else 80):
+        out.append(gen_xy_transposed(rng, 'scatter'))
+        out.append(gen_xy_transposed(rng, 'lineplot'))
+        out.append(gen_scatter_free2d(rng))
     n = 520 if ctx.tier == 'quick' else 5200
     for i in range(n):
         r = rng.random()
